@@ -24,7 +24,8 @@ Definition px_ok (c : rgb) : Prop := rgb_ok c = true.
 
 (* a non-empty rectangular image of byte colours *)
 Definition img_ok (im : img) : Prop :=
-  im <> [] /\ img_width im <> 0%N /\ rect im = true /\ Forall (Forall px_ok) im.
+  im <> [] /\ img_width im <> 0%N /\ rect im = true /\ Forall (Forall px_ok) im /\
+  (N.of_nat (length (img_pixels im)) <= max_pixels)%N.       (* the assumption of OctreeProofs.max_pixels *)
 
 (* ---------- images ---------- *)
 
@@ -61,26 +62,31 @@ Qed.
 
 Lemma sample_loop_spec fuel : forall sample st l t,
   wf_oc t -> Forall px_ok l -> (length l < fuel)%nat ->
+  fits_bound (oc_mass t + N.of_nat (length l)) ->
   exists t', sample_loop fuel sample st l t = Ok t' /\ wf_oc t' /\
     (lsum nleaves (o_children t) <= lsum nleaves (o_children t'))%nat /\
     ((N.to_nat (fst (next_u32 st) mod sample) < length l)%nat ->
-     (1 <= lsum nleaves (o_children t'))%nat).
+     (1 <= lsum nleaves (o_children t'))%nat) /\
+    (oc_mass t' <= oc_mass t + N.of_nat (length l))%N.
 Proof.
-  induction fuel as [|f IH]; intros sample st l t Hw Hok Hlen; [lia|].
+  induction fuel as [|f IH]; intros sample st l t Hw Hok Hlen Hfit; [lia|].
   cbn [sample_loop]. destruct (next_u32 st) as [v st'] eqn:En. cbn [fst].
   set (n := N.to_nat (v mod sample)).
   destruct (skipn n l) as [|c rest] eqn:Es.
-  - exists t. split; [reflexivity|]. split; [exact Hw|]. split; [lia|].
+  - exists t. split; [reflexivity|]. split; [exact Hw|]. split; [lia|]. split; [|lia].
     intros Hn. assert (length (skipn n l) = 0%nat) by (rewrite Es; reflexivity).
     rewrite skipn_length in H. lia.
   - assert (Hok' : Forall px_ok (c :: rest)) by (rewrite <- Es; apply Forall_skipn_local, Hok).
     inversion Hok' as [|? ? Hc Hrest]; subst.
-    destruct (oc_insert_wf t c Hw Hc) as (t1 & -> & Hw1 & Hp1 & Hle1). cbn [bind].
-    assert (Hl : (length rest < f)%nat).
+    assert (Hl : (length rest < f)%nat /\ (S (length rest) <= length l)%nat).
     { assert (length (skipn n l) = S (length rest)) by (rewrite Es; reflexivity).
       rewrite skipn_length in H. lia. }
-    destruct (IH sample st' rest t1 Hw1 Hrest Hl) as (t' & -> & Hw' & Hle' & _).
-    exists t'. split; [reflexivity|]. split; [exact Hw'|]. split; [lia|]. intros _. lia.
+    destruct Hl as [Hl Hl2].
+    assert (Hf1 : fits_bound (oc_mass t + 1)) by (eapply fits_bound_mono; [|exact Hfit]; lia).
+    destruct (oc_insert_wf t c Hw Hc Hf1) as (t1 & -> & Hw1 & Hp1 & Hle1 & Hm1). cbn [bind].
+    assert (Hf2 : fits_bound (oc_mass t1 + N.of_nat (length rest))) by (eapply fits_bound_mono; [|exact Hfit]; lia).
+    destruct (IH sample st' rest t1 Hw1 Hrest Hl Hf2) as (t' & -> & Hw' & Hle' & _ & Hm').
+    exists t'. split; [reflexivity|]. split; [exact Hw'|]. split; [lia|]. split; [intros _; lia|lia].
 Qed.
 
 Lemma sample_of_le im k :
@@ -95,21 +101,26 @@ Qed.
 
 Lemma image_octree_ok im k :
   img_ok im -> (1 <= k)%N ->
-  exists t, image_octree im k = Ok t /\ wf_oc t /\ (1 <= lsum nleaves (o_children t))%nat.
+  exists t, image_octree im k = Ok t /\ wf_oc t /\ (1 <= lsum nleaves (o_children t))%nat /\
+            fits_bound (oc_mass t).
 Proof.
-  intros (Hne & Hw & Hr & Hok) Hk. unfold image_octree.
+  intros (Hne & Hw & Hr & Hok & Hmax) Hk. unfold image_octree. pose proof (widths_adequate _ Hmax) as Hfit.
   pose proof (img_pixels_ok im Hok) as Hpx.
   assert (Hpos : img_pixels im <> []).
   { intros E. pose proof (img_pixels_length im Hr) as HL. rewrite E in HL. cbn [length] in HL.
     unfold img_height in HL. destruct im; [congruence|]. cbn [length] in HL. lia. }
   destruct (sample_of im k <? 2)%N eqn:Es.
-  - destruct (oc_extend_wf (img_pixels im) oc_new oc_new_wf Hpx) as (t & Ht & Hwt & _ & Hp).
-    exists t. split; [exact Ht|]. split; [exact Hwt|]. apply Hp, Hpos.
+  - destruct (oc_extend_wf (img_pixels im) oc_new oc_new_wf Hpx) as (t & Ht & Hwt & _ & Hp & Hm);
+      [rewrite oc_new_mass; exact Hfit|].
+    exists t. split; [exact Ht|]. split; [exact Hwt|]. split; [apply Hp, Hpos|].
+    rewrite Hm, oc_new_mass. exact Hfit.
   - destruct (sample_loop_spec (S (length (img_pixels im))) (sample_of im k) 0 (img_pixels im) oc_new
-                               oc_new_wf Hpx ltac:(lia)) as (t & Ht & Hwt & _ & Hp).
-    exists t. split; [exact Ht|]. split; [exact Hwt|]. apply Hp.
-    pose proof (sample_of_le im k Hk Hr).
-    pose proof (N.mod_upper_bound (fst (next_u32 0)) (sample_of im k)). lia.
+                               oc_new_wf Hpx ltac:(lia)) as (t & Ht & Hwt & _ & Hp & Hm);
+      [rewrite oc_new_mass; exact Hfit|].
+    exists t. split; [exact Ht|]. split; [exact Hwt|]. split.
+    + apply Hp. pose proof (sample_of_le im k Hk Hr).
+      pose proof (N.mod_upper_bound (fst (next_u32 0)) (sample_of im k)). lia.
+    + rewrite oc_new_mass in Hm. eapply fits_bound_mono; [exact Hm|exact Hfit].
 Qed.
 
 Theorem palette_of_image_bounds im k :
@@ -117,13 +128,13 @@ Theorem palette_of_image_bounds im k :
   exists pal, palette_of_image im k = Ok pal /\
               (1 <= length pal)%nat /\ (N.of_nat (length pal) <= N.max k 8)%N.
 Proof.
-  intros Hi Hk. pose proof Hi as (Hne & Hw & Hr & Hok). unfold palette_of_image.
+  intros Hi Hk. pose proof Hi as (Hne & Hw & Hr & Hok & Hmax). unfold palette_of_image.
   assert (E1 : (img_height im =? 0)%N = false) by (unfold img_height; destruct im; [congruence|cbn [length]; lia]).
   assert (E2 : (img_width im =? 0)%N = false) by lia.
   assert (E3 : (k =? 0)%N = false) by lia.
   rewrite E1, E2, E3. cbn [orb].
-  destruct (image_octree_ok im k Hi Hk) as (t & -> & Hwt & Hp). cbn [bind].
-  destruct (prune_until_terminates k t Hwt) as (t' & -> & Hw' & Hb' & Hp'). cbn [bind]. specialize (Hp' Hp).
+  destruct (image_octree_ok im k Hi Hk) as (t & -> & Hwt & Hp & Hft). cbn [bind].
+  destruct (prune_until_terminates k t Hwt Hft) as (t' & -> & Hw' & Hb' & Hp'). cbn [bind]. specialize (Hp' Hp).
   destruct (build_palette_ok t' Hw') as (pal & -> & Hlen). cbn [bind].
   pose proof (wo_bound _ Hw').
   destruct pal as [|p pal]; [cbn [length] in Hlen; lia|].
